@@ -920,5 +920,9 @@ pub fn run_c02(cfg: &RunCfg) -> Report {
     let mut rep = Report::new("C02", cfg.seed, &cfg.tier);
     rep.nontrivial_rule = "a DS-level sequence is non-trivial when at least three different kinds of partition operations succeeded and changed the state; distinct = distinct hash of the op lines".into();
     run_ds(cfg, &mut rep, "C02");
+    // the power-actor half: claims / totals under the consensus-minimum rule (sequence ids 1_000_000+)
+    if cfg.only_seq.map(|k| (1_000_000..2_000_000).contains(&k)).unwrap_or(true) {
+        super::power_ds::run_into(cfg, &mut rep);
+    }
     rep
 }
